@@ -276,6 +276,15 @@ theorem mirror_structure_any_constraint (env : JEnv) (v : Value) (t : Ty) (j : J
     (hs : setFree v.ty = true) (hj : marshal env v t = .ok j) : mirrorsW t v.ty v.v j = true :=
   mirrorW_entry env v.v t v.ty j hs hj
 
+/-- … of which the plain mirror is the placeholder-free instance, now for ANY placeholder-free
+constraint (not only the value's own type; optional-attribute annotations allowed) and without
+the well-formedness / knownness / unmarkedness hypotheses of `mirror_structure`: those follow
+from the encoder having returned a document. -/
+theorem mirror_structure_placeholder_free (env : JEnv) (v : Value) (t : Ty) (j : Json)
+    (hd : hasDyn t = false) (hs : setFree v.ty = true) (hj : marshal env v t = .ok j) :
+    mirrors v.v j = true :=
+  mirrors_of_mirrorsW v.v t v.ty j hd (mirror_structure_any_constraint env v t j hs hj)
+
 /-- non-vacuous, and what it looks like: the sample value of the non-vacuity section (a
 placeholder at the top-level attribute `a` and inside the map) is encoded with two wrappers -/
 example : marshal env0 ⟨.object ["a", "b"] [.list .string, .map .bool] [false, false],
